@@ -113,7 +113,9 @@ impl TypeScorer {
             .all(|m| m.0.iter().all(|d| d.weights.is_empty()));
         #[cfg(not(feature = "tag-prediction"))]
         let no_tag_ngrams = true;
-        if ngram_model.0.is_empty() && no_tag_ngrams || window_size == 0 {
+        // A window size of zero rules out n-grams only: tag n-grams are scored regardless of it.
+        let no_ngrams = ngram_model.0.is_empty() || window_size == 0;
+        if no_ngrams && no_tag_ngrams {
             return Ok(None);
         }
 
